@@ -8,5 +8,7 @@ PROPERTIES = {
     "C08": "xv.harness.c08_capacity",
     "C09": "xv.harness.c09_release",
     "C10": "xv.harness.c10_markers",
+    "C12": "xv.harness.c12_roundtrip",
+    "C14": "xv.harness.c14_sealed",
     "C18": "xv.harness.c18_launcher",
 }
